@@ -115,6 +115,9 @@ pub const IOSQE_ASYNC: u8 = 1 << IOSQE_ASYNC_BIT as u8;
 pub const IOSQE_BUFFER_SELECT: u8 = 1 << IOSQE_BUFFER_SELECT_BIT as u8;
 pub const IOSQE_CQE_SKIP_SUCCESS: u8 = 1 << IOSQE_CQE_SKIP_SUCCESS_BIT as u8;
 
+// Not defined in libc or by the io_uring.h header bindings.
+pub const SPLICE_F_FD_IN_FIXED: u32 = 1 << 31;
+
 pub type __kernel_time64_t = ::std::os::raw::c_longlong;
 pub type __u8 = ::std::os::raw::c_uchar;
 pub type __u16 = ::std::os::raw::c_ushort;
